@@ -548,3 +548,52 @@ def r22_arr_contains(text, fn, log):
         new = 'arr2_contains(%s, %s)' % (text[s:mk.start()].strip(), mk.group(1))
         log.add('R22', fn, text[s:mk.end()], new)
         text = text[:s] + new + text[mk.end():]
+
+
+# ------------------------------------------------------------------ R4 (continued): array patterns in `let` and `match`
+_R4_LET = re.compile(r'let\s*\[\s*([a-z_][a-z0-9_]*)\s*,\s*([a-z_][a-z0-9_]*)\s*\]\s*=')
+
+
+def r4_let_match(text, fn, log):
+    """`let [a, b] = E;` -> `let ab_ = E; let a = ab_[0]; let b = ab_[1];`
+    `match X { [P, Q] => .. }` -> `match (X[0], X[1]) { (P, Q) => .. }`  (2-arrays of Copy elements)"""
+    while True:
+        m = mask(text)
+        mk = _R4_LET.search(m)
+        if not mk:
+            break
+        j = mk.end()
+        while j < len(m) and m[j] != ';':
+            if m[j] in OPEN:
+                j = match_close(m, j)
+            j += 1
+        expr = text[mk.end():j].strip()
+        new = 'let ab_ = %s; let %s = ab_[0]; let %s = ab_[1];' % (expr, mk.group(1), mk.group(2))
+        log.add('R4', fn, text[mk.start():j + 1], new)
+        text = text[:mk.start()] + new + text[j + 1:]
+    m = mask(text)
+    edits = []
+    for mk in re.finditer(r'(?<![A-Za-z0-9_])match\s+([a-z_][a-z0-9_]*)\s*\{', m):
+        ob = mk.end() - 1
+        cb = match_close(m, ob)
+        first = skip_ws(m, ob + 1, cb)
+        if m[first] != '[':
+            continue
+        scrut = mk.group(1)
+        edits.append((mk.start(), ob, 'match (%s[0], %s[1]) ' % (scrut, scrut)))
+        j = ob + 1
+        while j < cb:
+            c = m[j]
+            if c == '[':
+                k = match_close(m, j)
+                edits.append((j, j + 1, '('))
+                edits.append((k, k + 1, ')'))
+                j = k + 1
+                # skip to the arm body end
+                continue
+            if c in '{(':
+                j = match_close(m, j) + 1
+                continue
+            j += 1
+        log.add('R4', fn, 'match %s { [P, Q] => .. }' % scrut, 'match (%s[0], %s[1]) { (P, Q) => .. }' % (scrut, scrut))
+    return apply_edits(text, edits)
